@@ -19,9 +19,11 @@ def obligations(tier):
                   bounds="one box with the alignment absent / spelled out as the DFXP default / right-top, at caption level and on two positioned spans (27 combinations): unequal layouts that serialise to the same region attributes"))
     V = ("WebVTTWriter._convert_positioning", "_group_cues_by_layout", "_convert_caption", "write")
     obs.append(ch("vtt_settings", "harness.C12_pos", timeout=T, functions=V, exhaustive=True,
-                  bounds="origin x/y out of {0, 10, 12.5, 33.33}, width absent/50/66.67, start/end/top padding absent/1.25/5, alignment absent/left/center/right: cue settings equal the reference arithmetic printed with two decimals"))
+                  bounds="origin x/y out of {0, 10, 12.5, 33.33}, width absent/50/66.67, start/end/top padding absent/0.75/5, alignment absent/left/center/right: cue settings equal the reference arithmetic printed with two decimals"))
+    obs.append(ch("vtt_settings_fit", "harness.C12_pos", timeout=T, functions=V + ("Layout.fit_to_screen",), exhaustive=True,
+                  bounds="fit_to_screen=True x relativize on/off, origin x out of {0, 10, 12.5, 33.33}, width absent/50/66.67, start padding absent/0.75/5"))
     obs.append(ch("vtt_shared_layout", "harness.C12_pos", timeout=T, functions=V + ("geometry.Size.__add__/__sub__", "Layout.as_percentage_of/fit_to_screen"), exhaustive=True,
-                  bounds="2-3 cues resolving to one Layout object (language level / same instance on each caption / on each node) with start and top padding absent/1.25/5: every cue carries that layout's settings, the layout object is unchanged"))
+                  bounds="2-3 cues resolving to one Layout object (language level / same instance on each caption / on each node) with start and top padding absent/0.75/5: every cue carries that layout's settings, the layout object is unchanged"))
     obs.append(ch("vtt_split_and_passthrough", "harness.C12_pos", timeout=T, functions=V, exhaustive=True,
                   bounds="three text nodes with layouts out of {none, A, B}: cues per run of equal layouts, same times, settings of each run"))
     obs.append(ch("vtt_read_settings_verbatim", "harness.C12_pos", timeout=T, functions=("WebVTTReader._parse_timing_line", "WebVTTWriter._convert_positioning"), exhaustive=True,
